@@ -131,6 +131,11 @@ def cases(tier, seed):
         for inner in _subsets(E_SPARSE[1:-1]):
             yield {"space": "exhaustive", "e": "sparse", "cuts": list(cuts), "known": True,
                    "t": {"k": "divisions", "d": [E_SPARSE[0]] + list(inner) + [E_SPARSE[-1]], "force": False}}
+    # ---- complete sub-space: every (source count o, target n < o) pair, one row per source partition
+    omax = 32 if tier == "quick" else 48
+    for o in range(2, omax + 1):
+        for n in range(1, o):
+            yield {"space": "exhaustive", "e": "range", "o": o, "known": (o + n) % 2 == 0, "t": {"k": "npartitions", "n": n}}
     if tier == "thorough":
         for inner in _subsets(E_GRID[1:-1]):
             sd = [E_GRID[0]] + list(inner) + [E_GRID[-1]]
@@ -306,6 +311,11 @@ def build(case):
     from vf.gen import frames as F
 
     F.setup()
+    if case.get("e") == "range":
+        o = case["o"]
+        pdf = pd.DataFrame({"x": [(7 * i) % o for i in range(o)]}, index=pd.RangeIndex(o))
+        src = F.partition(pdf, {"how": "chunksize", "n": 1, "clear": not case["known"]})
+        return {"pdf": pdf, "src": src, "kind": "range"}
     if "e" in case:
         idx = {"sparse": E_SPARSE, "dense": E_DENSE, "dups": E_DUPS}[case["e"]]
         pdf = pd.DataFrame({"x": [5, 3, 8, 1, 9, 2], "y": list("abcdef")}, index=pd.Index(idx, name="i"))
